@@ -1,4 +1,5 @@
 """C06 — backlog never exceeds capacity; slots are always returned."""
 from contracts.server import UNITS_C06, ASSUMPTIONS
-UNITS = list(UNITS_C06)
+from contracts.ctors import UNITS_C06_CTORS
+UNITS = list(UNITS_C06) + list(UNITS_C06_CTORS)
 SCENARIOS = [('', 'replay/scenarios/c06_backlog_overshoot.py')]
